@@ -18,6 +18,7 @@ HeapEq(a, b) == /\ \A x \in Obj : a.child[x] = b.child[x] /\ a.kids[x] = b.kids[
                 /\ \A x \in Obj : D!WellFormed(a.d[x]) /\ D!DictEq(a.d[x], b.d[x])
                 /\ \A x \in Obj : a.s[x] = b.s[x] /\ D!WellFormed(a.dl[x]) /\ DLEq(a.dl[x], b.dl[x])
                                    /\ a.hasx[x] = b.hasx[x] /\ a.xv[x] = b.xv[x]
+                                   /\ a.box[x] = b.box[x] /\ a.boxi[x] = b.boxi[x]
 \* registrations: c.regs = sequence of [h, e, n] (handler id, expression, count > 0)
 RegOf(c, hid) == CHOOSE r \in SetOf(c.regs) : r.h = hid
 HasReg(c, hid) == \E r \in SetOf(c.regs) : r.h = hid
@@ -64,6 +65,11 @@ RegClauses(c) ==       \* observe / unobserve steps; c.regs before, c.regs2 afte
   ELSE IF cnt = 0
        THEN (IF c.exc # "NotifierNotFound" THEN {"C09-removal-without-registration-did-not-raise"} ELSE {})
             \cup (IF c.census2 # c.census1 THEN {"C09-failed-removal-changed-notifiers"} ELSE {})
+       \* a removal that cannot walk the graph (a quiet assignment put a non-container where a list is required) raises
+       \* and leaves every notifier where it was
+       ELSE IF Fails(HS(c.pre), c.m.e)
+            THEN (IF c.exc = "" THEN {"C09-failing-removal-accepted"} ELSE {})
+                 \cup (IF c.census2 # c.census1 THEN {"C09-failed-removal-changed-notifiers"} ELSE {})
        ELSE (IF c.exc # "" THEN {"C09-removal-raised"} ELSE {})
 \* Out of the quantifier: a mutation after which an active registration's expression no longer applies
 \* (an object lacking a required trait has been linked into an observed path).  The framework raises
@@ -90,8 +96,14 @@ Clauses(c) ==
   IF c.m.t = "collect" THEN (IF c.alive = 0 THEN {} ELSE {"C09-registrations-keep-objects-alive"}) ELSE
   \* the owner of a bound-method handler was collected: from now on that handler is never called (c.regs2 omits it)
   IF c.m.t = "drop_owner" THEN (IF c.exc = "" /\ c.alive = 0 THEN {} ELSE {"C09-handler-owner-kept-alive"}) \cup ProbeClauses(c) ELSE
+  \* a QUIET assignment (trait_setq): nobody may be told; the hooks stay where they were, so from here on only registration
+  \* steps are judged (the harness ends the history after the next one)
+  IF c.m.t = "boxint" /\ c.m.a[2] = 1
+  THEN (IF HeapEq(Mutate(HS(c.pre), c.m), HS(c.post)) THEN {} ELSE {"C08-model-heap"})
+       \cup (IF \A k \in 1..Len(c.calls) : c.calls[k] = <<>> THEN {} ELSE {"C08-quiet-assignment-notified"}) ELSE
+  IF "afterquiet" \in DOMAIN c /\ c.afterquiet = 1 THEN RegClauses(c) ELSE
   IF c.m.t \notin {"observe", "unobserve"} /\ Inapplicable(c) THEN {} ELSE
-  LET loop == c.m.t \in {"child", "kidsassign", "kids", "dassign", "d", "sassign", "s", "dlassign", "dl", "dlin", "del"} /\ OnCycle(HS(c.pre), c.m.x)
+  LET loop == c.m.t \in {"child", "kidsassign", "kids", "dassign", "d", "sassign", "s", "dlassign", "dl", "dlin", "del", "boxassign", "box"} /\ OnCycle(HS(c.pre), c.m.x)
       base == (IF c.m.t \in {"observe", "unobserve"} THEN RegClauses(c) ELSE MutClauses(c))
               \cup ProbeClauses(c)
               \cup (IF c.regs2 = <<>> /\ c.dropped = 0 /\ c.census2 # c.census0 THEN {"C09-notifiers-not-back-to-baseline"} ELSE {})
